@@ -30,19 +30,29 @@ def viewTop (act : Bool) (p : Placement) : Option (Leaf × Bool) :=
 
 theorem viewMain_push (v : Val) (act : Bool) (e : Encl) (p : Placement) :
     viewMain v act (p.push e) = viewMain v (act && e.holds v) p := by
-  simp [viewMain, Placement.push, Bool.and_assoc]
+  cases p with
+  | mk l en =>
+    show viewMain v act ⟨l, e :: en⟩ = viewMain v (act && e.holds v) ⟨l, en⟩
+    simp [viewMain, Bool.and_assoc]
 
 theorem viewAv_push_alt (v : Val) (act : Bool) (es : List Guard) (g : Guard) (p : Placement) :
     viewAv v act (p.push (.alt es g)) = viewAv v (act && (Encl.alt es g).holds v) p := by
-  simp [viewAv, Placement.push, Encl.ordinary, List.filter_cons, Bool.and_assoc]
+  cases p with
+  | mk l en =>
+    show viewAv v act ⟨l, .alt es g :: en⟩ = viewAv v (act && (Encl.alt es g).holds v) ⟨l, en⟩
+    simp [viewAv, Encl.ordinary, List.filter_cons, Bool.and_assoc]
 
 theorem viewAv_push_body (v : Val) (act : Bool) (r : Nat) (p : Placement) :
     viewAv v act (p.push (.body r)) = viewAv v act p := by
-  simp [viewAv, Placement.push, Encl.ordinary, List.filter_cons]
+  cases p with
+  | mk l en =>
+    show viewAv v act ⟨l, .body r :: en⟩ = viewAv v act ⟨l, en⟩
+    simp [viewAv, Encl.ordinary]
 
 theorem viewTop_push (act : Bool) (e : Encl) (p : Placement) :
     viewTop act (p.push e) = viewTop act p := by
-  simp [viewTop, Placement.push]
+  cases p with
+  | mk l en => rfl
 
 theorem filterMap_push {β} (f g : Placement → Option β) (e : Encl) (l : List Placement)
     (h : ∀ p, f (p.push e) = g p) :
@@ -90,7 +100,7 @@ theorem main_blk (v : Val) : ∀ (t : TBlk) (act : Bool), t.wf = true →
     have i2 := main_blk v rest act h.2
     have hp := filterMap_push (viewMain v act) (viewMain v (act && v.run r)) (.body r) (places b)
       (fun p => by rw [viewMain_push]; rfl)
-    simp [lowerMain, effs, places, i1, i2, hp, Cond.holds, Guard.holds]
+    simp [lowerMain, effs, effsAlts, places, i1, i2, hp, Cond.holds, Guard.holds]
 theorem main_alts (v : Val) : ∀ (sel : Option Nat) (al : TAlts) (earlier : List Guard) (act : Bool),
     al.wf = true →
     effsAlts v act (earlier.all (fun e => !e.holds v)) (lowerMainAlts sel al)
@@ -240,6 +250,132 @@ theorem top_states (v : Val) : ∀ (f : Nat) (sts : TStates) (act : Bool),
     have hp := filterMap_push (viewTop act) (viewTop act)
       (.alt [] (.state f st)) (places b) (fun p => viewTop_push act _ p)
     simp [lowerTopStates, effs_append, placesStates, i1, i2, hp]
+end
+
+/-! ### pointwise forms -/
+
+theorem active_iff (es : List (Leaf × Bool)) (l : Leaf) : active es l = true ↔ (l, true) ∈ es := by
+  simp only [active, List.any_eq_true, Bool.and_eq_true, beq_iff_eq]
+  constructor
+  · rintro ⟨⟨l', b⟩, hm, h1, h2⟩
+    simp only at h1 h2
+    subst h1; subst h2; exact hm
+  · intro h
+    exact ⟨(l, true), h, rfl, rfl⟩
+
+theorem main_mem (v : Val) (t : TBlk) (hwf : t.wf = true) (l : Leaf) (b : Bool) :
+    (l, b) ∈ effs v true (lowerMain t) ↔
+      ∃ p ∈ places t, p.leaf = l ∧ l.dom.ordinary = true ∧ b = p.encl.all (fun e => e.holds v) := by
+  rw [main_blk v t true hwf]
+  simp only [List.mem_filterMap, viewMain, Bool.true_and]
+  constructor
+  · rintro ⟨p, hp, h⟩
+    by_cases ho : p.leaf.dom.ordinary = true
+    · simp only [ho, if_true, Option.some.injEq, Prod.mk.injEq] at h
+      exact ⟨p, hp, h.1, h.1 ▸ ho, h.2.symm⟩
+    · simp [ho] at h
+  · rintro ⟨p, hp, h1, h2, h3⟩
+    refine ⟨p, hp, ?_⟩
+    subst h1
+    simp [h2, h3]
+
+theorem av_mem (v : Val) (t : TBlk) (l : Leaf) (b : Bool) :
+    (l, b) ∈ effs v true (lowerAv t) ↔
+      ∃ p ∈ places t, p.leaf = l ∧ l.dom = .av ∧
+        b = (p.encl.filter Encl.ordinary).all (fun e => e.holds v) := by
+  rw [av_blk v t true]
+  simp only [List.mem_filterMap, viewAv, Bool.true_and]
+  constructor
+  · rintro ⟨p, hp, h⟩
+    by_cases ho : p.leaf.dom = .av
+    · simp only [ho, if_true, Option.some.injEq, Prod.mk.injEq] at h
+      exact ⟨p, hp, h.1, h.1 ▸ ho, h.2.symm⟩
+    · simp [ho] at h
+  · rintro ⟨p, hp, h1, h2, h3⟩
+    refine ⟨p, hp, ?_⟩
+    subst h1
+    simp [h2, h3]
+
+theorem top_mem (v : Val) (t : TBlk) (l : Leaf) (b : Bool) :
+    (l, b) ∈ effs v true (lowerTop t) ↔ ∃ p ∈ places t, p.leaf = l ∧ l.dom = .top ∧ b = true := by
+  rw [top_blk v t true]
+  simp only [List.mem_filterMap, viewTop]
+  constructor
+  · rintro ⟨p, hp, h⟩
+    by_cases ho : p.leaf.dom = .top
+    · simp only [ho, if_true, Option.some.injEq, Prod.mk.injEq] at h
+      exact ⟨p, hp, h.1, h.1 ▸ ho, h.2.symm⟩
+    · simp [ho] at h
+  · rintro ⟨p, hp, h1, h2, h3⟩
+    refine ⟨p, hp, ?_⟩
+    subst h1
+    simp [h2, h3]
+
+/-! ### registers -/
+
+theorem lastNext_none (f : Nat) : ∀ (es : List (Leaf × Bool)) (acc : Option Nat),
+    (∀ st, (Leaf.next f st, true) ∉ es) → lastNext f es acc = acc
+  | [], acc, _ => by simp [lastNext]
+  | (l, b) :: rest, acc, h => by
+    have hrest : ∀ st, (Leaf.next f st, true) ∉ rest := fun st hm => h st (List.mem_cons_of_mem _ hm)
+    have ih := fun acc => lastNext_none f rest acc hrest
+    cases l with
+    | assign d w => cases b <;> simp [lastNext, ih]
+    | next f' st =>
+      cases b with
+      | false => simp [lastNext, ih]
+      | true =>
+        have hne : f' ≠ f := by
+          intro hh
+          exact h st (by simp [hh])
+        simp [lastNext, ih, hne]
+
+theorem lookup_map_snd {β} (g : Nat → β → β) :
+    ∀ (l : List (Nat × β)) (k : Nat),
+    (l.map fun (a, b) => (a, g a b)).lookup k = (l.lookup k).map (g k)
+  | [], _ => by simp [List.lookup]
+  | (a, b) :: rest, k => by
+    by_cases h : k = a
+    · subst h; simp [List.lookup]
+    · have : (k == a) = false := by simpa using h
+      simp [List.lookup, this, lookup_map_snd g rest k]
+
+/-! ### `av_comb` does not look at run signals -/
+
+theorem toGuard_holds_run (v : Val) (r' : Nat → Bool) (sel : Option Nat) (g : TGuard) :
+    (g.toGuard sel).holds { v with run := r' } = (g.toGuard sel).holds v := by
+  cases g <;> cases sel <;> simp [TGuard.toGuard, Guard.holds, Cond.holds]
+
+mutual
+theorem av_norun_blk (v : Val) (r' : Nat → Bool) : ∀ (t : TBlk) (act : Bool),
+    effs { v with run := r' } act (lowerAv t) = effs v act (lowerAv t)
+  | .nil, act => by simp [lowerAv, effs]
+  | .leaf l rest, act => by
+    have ih := av_norun_blk v r' rest act
+    by_cases hd : l.dom = .av
+    · simp [lowerAv, hd, effs, ih]
+    · simp [lowerAv, hd, ih]
+  | .ifc alts rest, act => by
+    simp [lowerAv, effs, av_norun_alts v r' none alts act true, av_norun_blk v r' rest act]
+  | .sw sel alts rest, act => by
+    simp [lowerAv, effs, av_norun_alts v r' (some sel) alts act true, av_norun_blk v r' rest act]
+  | .fsm f ini sts rest, act => by
+    simp [lowerAv, effs_append, av_norun_states v r' f sts act, av_norun_blk v r' rest act]
+  | .avoided r b rest, act => by
+    simp [lowerAv, effs_append, av_norun_blk v r' b act, av_norun_blk v r' rest act]
+theorem av_norun_alts (v : Val) (r' : Nat → Bool) : ∀ (sel : Option Nat) (al : TAlts) (act free : Bool),
+    effsAlts { v with run := r' } act free (lowerAvAlts sel al) = effsAlts v act free (lowerAvAlts sel al)
+  | _, .nil, _, _ => by simp [lowerAvAlts, effsAlts]
+  | sel, .cons g b rest, act, free => by
+    simp only [lowerAvAlts, effsAlts, toGuard_holds_run]
+    rw [av_norun_blk v r' b, av_norun_alts v r' sel rest]
+theorem av_norun_states (v : Val) (r' : Nat → Bool) : ∀ (f : Nat) (sts : TStates) (act : Bool),
+    effs { v with run := r' } act (lowerAvStates f sts) = effs v act (lowerAvStates f sts)
+  | _, .nil, _ => by simp [lowerAvStates, effs]
+  | f, .cons st b rest, act => by
+    simp only [lowerAvStates, effs, effsAlts]
+    rw [av_norun_blk v r' b, av_norun_states v r' f rest]
+    simp [Guard.holds, Cond.holds]
 end
 
 end TxV.TModule
